@@ -188,7 +188,13 @@ def judgeTsParse (id : String) (fmt : TsFormat) (text : Bytes) (res dt http epoc
   -- what the text denotes according to the specification (none: silent)
   let denotes : Option (Int × Nat × Option Int) :=
     match fmt with
-    | .dateTime => (DtoSpec.readRfc3339 text).map fun (u, n, o) => (u, n, some o)
+    | .dateTime =>
+      -- an instant outside the years 0000 … 9999 of UTC has no text in either written form (`Z` / `GMT`, four-digit
+      -- year): the type cannot carry it through text, and it is outside the property's quantifier (years 1 … 9999).
+      -- The specification is silent on such a text (the code refuses it since 62f4e8c; the model comparison and the
+      -- `ts-parsed-unwritable` oracle below still apply)
+      (DtoSpec.readRfc3339 text).bind fun (u, n, o) =>
+        if -62167219200 ≤ u && u ≤ 253402300799 then some (u, n, some o) else none
     | .httpDate => (DtoSpec.readHttpDate text).map fun u => (u, 0, some 0)
     | .epochSeconds =>
       match DtoSpec.readEpoch text with
@@ -212,6 +218,15 @@ def judgeTsParse (id : String) (fmt : TsFormat) (text : Bytes) (res dt http epoc
       some (cls, s!"text denotes {u}.{n} impl={res}")
   let sf := sf.orElse fun _ => match impl with
     | some t => judgeTexts t dt http epoch
+    | none => none
+  -- "formatting then parsing is the identity" presupposes that a value `parse` hands out can be formatted at all:
+  -- an accepted text whose value `Timestamp::format` refuses is what made `fmt_timestamp(..).unwrap()` panic
+  -- (finding F-xml-7, repaired by 62f4e8c) — judged on the implementation's answers alone
+  let sf := sf.orElse fun _ => match impl with
+    | some t =>
+      if dt = "!" || http = "!" || epoch = "!" then
+        some ("ts-parsed-unwritable", s!"accepted as {t.unix}.{t.nanos} offset {t.off}, but format fails: {dt} {http} {epoch}")
+      else none
     | none => none
   match sf with
   | some (cls, d) => specfail id cls d
